@@ -128,8 +128,17 @@ def features(sc, exp):
         if o["failOnEmpty"]:
             f.add("failOnEmpty-nonempty")
         if o["stopOnFail"]:
-            f.add("x-stop" if e["nlines"] < len(e["sel"]) else "x-nostop")
-        f.add("exit1" if e["exit"] == 1 else "exit0")
+            # the -x rule, per verdict after which the run continues / stops (nobuild: observable on any tree)
+            jud = [t - 1 for t in e["sel"][:e["nlines"]]]
+            for k, t in enumerate(jud):
+                v = e["verdict"][t]
+                src = "" if v in ("SKIPPED", "PASSED", "XPASS") else (":nobuild" if sc["truth"][t] == "nobuild" else ":run")
+                if k + 1 < len(jud):
+                    f.add(f"x-cont:{v}{src}")
+                elif len(jud) < len(e["sel"]):
+                    f.add(f"x-stop:{v}{src}")
+        bad = sorted({v for v in e["verdict"] if v in ("FAILED", "XPASS")})
+        f.add("exit1:" + "+".join(bad) if e["exit"] == 1 else "exit0")
     if len(exp) > 1:
         f.add("x-after-xpass")
     return f
@@ -384,7 +393,7 @@ def analyse(sc, real, ses, exps):
                                           ("keyword", o["filter"] and not sc["matches"][t])) if c)
             fails.append((f"unselected-test-judged: excluded-by={why} -> {got[0]} ran={ranstr(begin[t], end[t])}",
                           "a test outside the documented selection was judged or run", detail))
-        elif "skip" in m:
+        elif "skip" in m and (got[0] != "none" or begin[t] or end[t]):
             fails.append((f"skip-test-mishandled: -> {got[0]} ran={ranstr(begin[t], end[t])}",
                           "a @skip test must be reported SKIPPED and must not run", detail))
         elif harness[t] == "empty":
@@ -581,6 +590,22 @@ def run(ctx):
     # ---------------------------------------------------------------- B2
     with ctx.timed("tlc_trace"):
         accepted = validate(ctx, sessions, "all")
+        # binding self-test: a session with one corrupted field (summary count / exit status) must be rejected
+        good = next((evs for _, evs in sessions if evs[-1]["e"] == "exit" and evs[-2]["e"] == "summary"), None)
+        if good is not None and not ctx.violations:
+            for how in ("summary", "exit"):
+                bad = json.loads(json.dumps(good))
+                if how == "summary":
+                    bad[-2]["c"]["passed"] += 1
+                else:
+                    bad[-1]["code"] = 1 - bad[-1]["code"]
+                path = os.path.join(ctx.work, "trace_selftest.ndjson")
+                with open(path, "w") as fh:
+                    fh.write("\n".join(json.dumps(e) for e in bad) + "\n")
+                ok, res = common.validate_trace(ctx, "RunnerTrace", path, timeout=300)
+                if ok or not res["cases"].get("REJECT"):
+                    raise ToolError(f"RunnerTrace accepted a session with a corrupted {how}: the trace validation is vacuous")
+                ctx.tlc_runs[-1]["ok"] = f"rejects a session with a corrupted {how}, as required (self-test)"
     common.write_evidence(ctx, "model_checking", {
         "states": sum(r["distinct"] for r in ctx.tlc_runs),
         "transitions": sum(r["states"] for r in ctx.tlc_runs),
